@@ -296,6 +296,31 @@ def run_shard(rec):
         ins = [s for s in strings if isinstance(s, bytes) == is_bytes][:25 if quick else 60] + ([b''] if is_bytes else [''])
         calls = [(None, t, 0, True) for t in ins] + [(None, t, 0, False) for t in ins[:5]]
         compare_variants(rec, batch, d, calls, ('repository', origin), has_header=has_header)
+    # the curated template / binding shapes of C06 and C05 (keyword calls, higher-order templates,
+    # name clashes, captured names, class templates ...): every one in all variants
+    from . import c05
+    fixed = [('c06', tag, dict(name=None, extends=None, stmts=list(stmts) + [x for x in c06.EXTRA_RULES if x[1] not in {y[1] for y in stmts}]))
+             for tag, stmts in c06.curated_special() if not tag.startswith('byte')]
+    fixed += [('c05', tag, dict(name=None, extends=None, stmts=list(stmts))) for tag, stmts in c05.curated_classes()]
+    for origin, tag, G in fixed:
+        idx += 1
+        if not rec.mine(idx):
+            continue
+        if not gen.well_formed(G) or c06.sig_for(G):
+            rec.drop()
+            continue
+        try:
+            chain = refpeg.build_chain([G])
+        except Exception:
+            rec.drop()
+            continue
+        alpha = work.grammar_alphabet(G, '')
+        ins = work.guided_inputs(rec.rng, chain, alpha or 'ab', rounds=60 if quick else 200, keep=20 if quick else 50,
+                                 seeds=[''], exhaustive_len=2)[:30 if quick else 100]
+        calls = [(None, t, 0, True) for t in ins]
+        compare_variants(rec, batch, gast.render_grammar(G), calls, ('curated', origin, tag), chain=chain, G=G)
+        if len(batch.items) >= 12:
+            batch.run(rec)
     n = 14 if quick else 400
     for i in range(n):
         if rec.out_of_time():
